@@ -757,13 +757,18 @@ impl<S: Sample> RenderedImage<S> {
             frame: self.image.frame.idx,
             kind: "composite",
         });
-        composite(
+        let result = composite(
             &self.image.frame,
             &mut grid,
             self.image.refs.clone(),
             oriented_image_region,
             pool,
-        )?;
+        );
+        if let Err(e) = result {
+            // Don't leave the handle in `Rendering`; nobody would ever wake up the waiters.
+            drop(self.image.done_render(FrameRender::ErrTaken));
+            return Err(e);
+        }
 
         let image = Arc::new(grid);
         drop(
